@@ -18,12 +18,14 @@ mod c06;
 mod c07;
 mod c08;
 mod c09;
+mod c10;
 mod c11;
 mod c12;
 mod c13;
 mod c14;
 mod c15;
 mod c16;
+mod c17;
 mod child;
 mod gen;
 mod pq;
@@ -77,7 +79,9 @@ fn main() {
         "C15" => c15::run(&env, replay.as_deref()),
         "C14" => c14::run(&env, replay.as_deref()),
         "C08" => c08::run(&env, replay.as_deref()),
+        "C17" => c17::run(&env, replay.as_deref()),
         "C16" => c16::run(&env, replay.as_deref()),
+        "C10" => c10::run(&env, replay.as_deref()),
         "C09" => c09::run(&env, replay.as_deref()),
         "C11" => c11::run(&env, replay.as_deref()),
         "C13" => c13::run(&env, replay.as_deref()),
